@@ -2,6 +2,7 @@
 package mboxfs
 
 import (
+	"bytes"
 	"crypto/sha1"
 	"encoding/json"
 	"flag"
@@ -57,7 +58,7 @@ func snapshot(root string) map[string]snapEntry {
 				e.Hash = fmt.Sprintf("%x", sha1.Sum(b))
 			}
 		} else {
-			e.Size, e.Mtime = 0, 0 // directory times change when entries are added; entries themselves are compared
+			e.Size = 0 // a directory's time changes when an entry is added or removed, even if it is gone again afterwards
 		}
 		rel, _ := filepath.Rel(root, p)
 		out[rel] = e
@@ -138,7 +139,10 @@ func validBait() []byte {
 	return b
 }
 
-func doOp(op, mbox, mid string) (errText string) {
+// hostile header content of a received message, besides the Mid; {SANDBOX} is replaced by the sandbox root
+type hdrT [][2]string
+
+func doOp(op, mbox, mid string, hdrs hdrT) (errText string) {
 	defer func() {
 		if p := recover(); p != nil {
 			errText = fmt.Sprint("panic: ", p)
@@ -155,6 +159,16 @@ func doOp(op, mbox, mid string) (errText string) {
 		m.AddTo("LA1AAA")
 		m.SetSubject("hostile mid")
 		m.SetBody("content from a remote station\r\n")
+		for _, kv := range hdrs {
+			m.Header.Set(kv[0], kv[1])
+		}
+		// what the session hands to the mailbox is a message parsed from received bytes
+		if raw, err := m.Bytes(); err == nil {
+			pm := new(fbb.Message)
+			if err := pm.ReadFrom(bytes.NewReader(raw)); err == nil {
+				m = pm
+			}
+		}
 		if err := h.ProcessInbound(m); err != nil {
 			return err.Error()
 		}
@@ -183,7 +197,7 @@ func MainConfine(args []string) int {
 	cmid := fl.String("mid", "", "internal")
 	fl.Parse(args)
 	if *child != "" {
-		doOp(*child, *cmbox, *cmid)
+		doOp(*child, *cmbox, *cmid, nil)
 		return 0
 	}
 	os.MkdirAll(*tmp, 0755)
@@ -192,6 +206,7 @@ func MainConfine(args []string) int {
 		mid      string
 		confined bool
 		src      string
+		hdrs     hdrT
 	}
 	var cases []caseT
 	err := rec.ReadNDJSON(*plans, func(line []byte) error {
@@ -203,7 +218,7 @@ func MainConfine(args []string) int {
 		for i, s := range p.Mid {
 			segs[i] = segText[s]
 		}
-		cases = append(cases, caseT{strings.Join(segs, "/"), p.Confined, "plan"})
+		cases = append(cases, caseT{strings.Join(segs, "/"), p.Confined, "plan", nil})
 		return nil
 	})
 	if err != nil {
@@ -214,7 +229,25 @@ func MainConfine(args []string) int {
 		"blåbær/../../ø", "..", ".", "", " ", "a b", "..\\..\\win", "x/../../../l1/evil", "../sent/moved", "../../mbox/in/self", "NAME1/", "/",
 		"../neighbour.txt\x00", "..%2f..%2fx", "../../mbox", "../../mboxx", "../../mbox-1/in/EVIL", "../../mbox-1/in/THEIRS", "../../mbox.b2f/x", "../../mbox-1/out/Q", "~/.ssh/key", "con/../..", "a/./../../b"}
 	for _, s := range specials {
-		cases = append(cases, caseT{s, false, "special"})
+		cases = append(cases, caseT{s, false, "special", nil})
+	}
+	// very long identifiers (file name limits), identifiers hidden in RFC 2047 encoded words, and other header content a
+	// remote station controls: the mailbox's private headers
+	for _, n := range []int{200, 240, 246, 247, 248, 249, 250, 251, 252, 253, 255, 256, 300, 1000, 5000} {
+		cases = append(cases, caseT{strings.Repeat("L", n), true, "long", nil})
+	}
+	for _, s := range []string{"=?utf-8?q?=2E=2E=2F=2E=2E=2Fdropped?=", "=?utf-8?b?Li4vLi4vZHJvcHBlZA==?=", "=?ISO-8859-1?q?=2E=2E=2F=2E=2E=2F=2E=2E=2Fx?=",
+		"=?utf-8?q?=2Fabs=2Fpath?=", "=?utf-8?q?ordinary?="} {
+		cases = append(cases, caseT{s, true, "encoded-word", nil})
+	}
+	for _, h := range []hdrT{
+		{{"X-FilePath", "{SANDBOX}/l1/by-header.b2f"}},
+		{{"X-FilePath", "{SANDBOX}/l1/l2/l3/l4/l5/l6/l7/neighbour.txt"}},
+		{{"X-FilePath", "../../../by-relative-header.b2f"}},
+		{{"X-FilePath", "{SANDBOX}/l1/by-header.b2f"}, {"X-Unread", "false"}, {"X-P2POnly", "true"}},
+		{{"X-Unread", "{SANDBOX}/l1/x"}, {"X-Origin", "../../x"}, {"File", "12 ../../../att.bin"}},
+	} {
+		cases = append(cases, caseT{"HDRCASE00001", true, "header", h})
 	}
 	for i := 0; i < *extra; i++ {
 		n := 1 + rng.Intn(5)
@@ -222,7 +255,7 @@ func MainConfine(args []string) int {
 		for j := range segs {
 			segs[j] = []string{"..", "..", ".", "", "x", "NAME1", "l6", "l7", "mbox", "in", "out", "mbox-1", "mbox2"}[rng.Intn(13)]
 		}
-		cases = append(cases, caseT{strings.Join(segs, "/"), false, "seeded"})
+		cases = append(cases, caseT{strings.Join(segs, "/"), false, "seeded", nil})
 	}
 	self, _ := os.Executable()
 	w, err := rec.NewWriter(*out)
@@ -244,6 +277,13 @@ func MainConfine(args []string) int {
 			}
 			sandbox, mbox := setupSandbox(*tmp, c.mid)
 			mboxRel, _ := filepath.Rel(sandbox, mbox)
+			// the system temporary directory is not part of the mailbox either: point it into the watched tree
+			os.MkdirAll(filepath.Join(sandbox, "systmp"), 0755)
+			os.Setenv("TMPDIR", filepath.Join(sandbox, "systmp"))
+			var hdrs hdrT
+			for _, kv := range c.hdrs {
+				hdrs = append(hdrs, [2]string{kv[0], strings.ReplaceAll(kv[1], "{SANDBOX}", sandbox)})
+			}
 			before := snapshot(sandbox)
 			errText, exit := "", 0
 			if op == "SetSent" {
@@ -257,7 +297,7 @@ func MainConfine(args []string) int {
 					}
 				}
 			} else {
-				errText = doOp(op, mbox, c.mid)
+				errText = doOp(op, mbox, c.mid, hdrs)
 			}
 			time.Sleep(0)
 			after := snapshot(sandbox)
